@@ -211,15 +211,16 @@ theorem extended_matcher_partial (m : Mode) (p : Str) (t : Top) (he : m.entire =
 
   Third region: EntireString|Filenames|NoGlobStar with any of GlobLeadingDot, NoGlobCase, Shortest,
   ExtendedOperators — the mode expand.glob uses for every path component — on the `supported`
-  patterns without bracket expressions and pattern-lists (`[` and, with ExtendedOperators, `(` do
-  not occur) and without NUL.  `supported` leaves out here exactly: `?`/`*` where the pattern does
+  patterns without pattern-lists (with ExtendedOperators, `(` does not occur) and without NUL, in
+  which a bracket expression occurs only if the pattern has no slash (expand.glob splits a pattern
+  at its slashes first, so every pattern it hands to Regexp is of this kind).  `supported` leaves out here exactly: `?`/`*` where the pattern does
   not exclude a leading dot (C17-leading-dot), a literal dot after such a `*`
   (C17-leading-dot-after-star), `*` after `*` at a component start (`***`, C17-leading-dot). -/
 
 /-- **Language equality in the filename modes.** -/
 theorem regexp_language_fn_partial (m : Mode) (p : Str) (t : Top) (he : m.entire = true)
     (hf : m.filenames = true) (hns : m.noglobstar = true) (hs : supported m p = true)
-    (hb : cLB ∉ p) (hl : m.ext = false ∨ cLP ∉ p) (hz : (0 : Nat) ∉ p)
+    (hb : cLB ∉ p ∨ cSlash ∉ p) (hl : m.ext = false ∨ cLP ∉ p) (hz : (0 : Nat) ∉ p)
     (h : regexpOf m p = .ok t) : ∀ s, t.matches s = globMatch m p s := by
   intro s
   have hpp : PP .start 0 := by unfold PP; simp
@@ -247,7 +248,7 @@ theorem regexp_language_fn_partial (m : Mode) (p : Str) (t : Top) (he : m.entire
 /-- **Errors in the filename modes**, same region. -/
 theorem regexp_error_iff_fn_partial (m : Mode) (p : Str) (e : Err) (he : m.entire = true)
     (hf : m.filenames = true) (hns : m.noglobstar = true) (hs : supported m p = true)
-    (hb : cLB ∉ p) (hl : m.ext = false ∨ cLP ∉ p) (hz : (0 : Nat) ∉ p) :
+    (hb : cLB ∉ p ∨ cSlash ∉ p) (hl : m.ext = false ∨ cLP ∉ p) (hz : (0 : Nat) ∉ p) :
     regexpOf m p = .error e ↔ malformed m p = some e := by
   have hpp : PP .start 0 := by unfold PP; simp
   have ha := top_agree_fn m hf hns p.length (p.length + 1) .start 0 p (p.length + 1) (p.length + 1)
@@ -270,7 +271,7 @@ theorem regexp_error_iff_fn_partial (m : Mode) (p : Str) (e : Err) (he : m.entir
 /-- **The result compiles**, filename modes, same region. -/
 theorem regexp_compiles_fn_partial (m : Mode) (p : Str) (t : Top) (he : m.entire = true)
     (hf : m.filenames = true) (hns : m.noglobstar = true) (hs : supported m p = true)
-    (hb : cLB ∉ p) (hl : m.ext = false ∨ cLP ∉ p) (hz : (0 : Nat) ∉ p)
+    (hb : cLB ∉ p ∨ cSlash ∉ p) (hl : m.ext = false ∨ cLP ∉ p) (hz : (0 : Nat) ∉ p)
     (h : regexpOf m p = .ok t) : goCompiles t.body = true := by
   have hpp : PP .start 0 := by unfold PP; simp
   have ha := top_agree_fn m hf hns p.length (p.length + 1) .start 0 p (p.length + 1) (p.length + 1)
@@ -293,10 +294,10 @@ theorem regexp_compiles_fn_partial (m : Mode) (p : Str) (t : Top) (he : m.entire
 
 /-- **The slash invariant** as a theorem about the model: in that region, whenever the emitted
     expression accepts a subject, the subject has exactly as many slashes as the parsed pattern has
-    literal-slash tokens — no `*` or `?` matched a slash and no literal slash was dropped. -/
+    literal-slash tokens — no `*`, `?` or bracket expression matched a slash and no literal slash was dropped. -/
 theorem slash_invariant_fn (m : Mode) (p : Str) (t : Top) (he : m.entire = true)
     (hf : m.filenames = true) (hns : m.noglobstar = true) (hs : supported m p = true)
-    (hb : cLB ∉ p) (hl : m.ext = false ∨ cLP ∉ p) (hz : (0 : Nat) ∉ p)
+    (hb : cLB ∉ p ∨ cSlash ∉ p) (hl : m.ext = false ∨ cLP ∉ p) (hz : (0 : Nat) ∉ p)
     (h : regexpOf m p = .ok t) (s : Str) (hm : t.matches s = true) :
     ∃ g, parseGlob m p = .ok g ∧ s.count cSlash = litSlashes g := by
   have hlang := regexp_language_fn_partial m p t he hf hns hs hb hl hz h s
@@ -308,7 +309,7 @@ theorem slash_invariant_fn (m : Mode) (p : Str) (t : Top) (he : m.entire = true)
     refine ⟨g, rfl, ?_⟩
     simp only [hp, he, if_true] at hlang
     have hg := (gmatch_full_iff m g true s).mp hlang.symm
-    exact GDen_slashes m hf g (parse_simple m hns _ _ p hb hl g hp) true s hg
+    exact GDen_slashes m hf g (parse_simple m hns _ _ p hl g hp) true s hg
 
 /-- The reference itself has the invariant, for every simple pattern (bracket expressions
     included): a bracket expression, `?` or `*` never consumes a slash in filename mode. -/
@@ -316,6 +317,52 @@ theorem reference_slash_invariant (m : Mode) (hf : m.filenames = true) (g : Glob
     (hg : simpleGlob g = true) (b : Bool) (s : Str) (h : GDen m g b s) :
     s.count cSlash = litSlashes g :=
   GDen_slashes m hf g hg b s h
+
+/-! ### One statement for the union of the three regions -/
+
+/-- The part of the mode × pattern space the proofs cover (on top of `supported`):
+    (1) no Filenames, no ExtendedOperators: every pattern;
+    (2) no Filenames, ExtendedOperators: flat pattern-lists;
+    (3) Filenames with NoGlobStar: no pattern-list (no `(` when ExtendedOperators is set), bracket
+        expressions only in patterns without a slash, no NUL.
+    Not covered, hence the remaining gap of `regexp_language_supported_statement`: pattern-lists
+    in the filename modes; `**` as globstar (Filenames without NoGlobStar); bracket expressions
+    together with slashes in one filename pattern; bracket expressions or nested lists inside a
+    pattern-list. -/
+def covered (m : Mode) (p : Str) : Prop :=
+  (m.filenames = false ∧ m.ext = false) ∨
+  (m.filenames = false ∧ m.ext = true ∧ flatLists m p = true) ∨
+  (m.filenames = true ∧ m.noglobstar = true ∧ (cLB ∉ p ∨ cSlash ∉ p) ∧ (m.ext = false ∨ cLP ∉ p) ∧
+    (0 : Nat) ∉ p)
+
+/-- **`regexp_language_supported`** on the covered part: for every EntireString mode, every
+    `supported` and `covered` pattern, the emitted expression accepts exactly what the pattern
+    matches under the reference semantics. -/
+theorem regexp_language_supported (m : Mode) (p : Str) (t : Top) (he : m.entire = true)
+    (hs : supported m p = true) (hc : covered m p) (h : regexpOf m p = .ok t) :
+    ∀ s, t.matches s = globMatch m p s := by
+  rcases hc with ⟨hf, hx⟩ | ⟨hf, hx, hl⟩ | ⟨hf, hns, hb, hl, hz⟩
+  · exact regexp_language_partial m p t he hx hf hs h
+  · exact regexp_language_ext_partial m p t he hx hf hs hl h
+  · exact regexp_language_fn_partial m p t he hf hns hs hb hl hz h
+
+/-- **`regexp_error_iff`** on the covered part. -/
+theorem regexp_error_iff_supported (m : Mode) (p : Str) (e : Err) (he : m.entire = true)
+    (hs : supported m p = true) (hc : covered m p) :
+    regexpOf m p = .error e ↔ malformed m p = some e := by
+  rcases hc with ⟨hf, hx⟩ | ⟨hf, hx, hl⟩ | ⟨hf, hns, hb, hl, hz⟩
+  · exact regexp_error_iff_partial m p e he hx hf hs
+  · exact regexp_error_iff_ext_partial m p e he hx hf hs hl
+  · exact regexp_error_iff_fn_partial m p e he hf hns hs hb hl hz
+
+/-- **`regexp_compiles`** on the covered part (`goCompiles`: regexp.MustCompile cannot panic). -/
+theorem regexp_compiles_supported (m : Mode) (p : Str) (t : Top) (he : m.entire = true)
+    (hs : supported m p = true) (hc : covered m p) (h : regexpOf m p = .ok t) :
+    goCompiles t.body = true := by
+  rcases hc with ⟨hf, hx⟩ | ⟨hf, hx, hl⟩ | ⟨hf, hns, hb, hl, hz⟩
+  · exact regexp_compiles_partial m p t he hx hf hs h
+  · exact regexp_compiles_ext_partial m p t he hx hf hs hl h
+  · exact regexp_compiles_fn_partial m p t he hf hns hs hb hl hz h
 
 /-- In that region `Regexp` never answers with a NegExtGlobError. -/
 theorem regexp_total_partial (m : Mode) (p : Str) (he : m.entire = true)
@@ -396,6 +443,9 @@ def m22 : Mode := Mode.ofNat 22    -- Filenames | EntireString | NoGlobStar: the
 example : supported m22 (strOf "a*/.b?c/*x.d") = true := by decide +kernel
 example : supported m22 (strOf "*.d") = false ∧ supported m22 (strOf "?a") = false := by decide +kernel
 example : globMatch m22 (strOf "a*/.b?c/*x.d") (strOf "ax/.bzc/yx.d") = true := by decide +kernel
+example : supported m22 (strOf "a[b-d]*[[:digit:]].c") = true := by decide +kernel
+example : globMatch m22 (strOf "a[b-d]*[[:digit:]].c") (strOf "acxx7.c") = true := by decide +kernel
+example : supported m22 (strOf "[!a]b") = false ∧ supported m22 (strOf "[.]a") = false := by decide +kernel
 example : globMatch m22 (strOf "*.d") (strOf ".d") = false ∧ globMatch m22 (strOf "*") (strOf "a/b") = false := by
   decide +kernel
 example : globMatch m68 (strOf "@(a(b)c)") (strOf "a(b)c") = true := by decide +kernel
